@@ -687,22 +687,63 @@ def replay_here(history):
     return [run_event(e) for e in history]
 
 
-def expand_here(history, events, canon_vals, canon_digest, fine, want_digest, expect_state=None):
-    """Runs in a forked child of the pristine interpreter: replay *history*, then fork one
-    grandchild per event of *events* (and one for the digest)."""
+BATCHABLE = ('read', 'hasattr', 'getattr_d')
+
+
+def expand_here(history, events, canon_vals, canon_digest, fine, want_digest, batch=True):
+    """Runs in a forked child of the pristine interpreter: replay *history*, then apply every
+    event of *events* to that state in a forked grandchild, and take the digest in another.
+
+    batch=False: one grandchild per event.  batch=True: attribute events (read / hasattr /
+    getattr-with-default) that left the abstract state unchanged, ran no loader code and
+    returned the canonical value share a grandchild with the next attribute event; every
+    event that changed anything, every calculator / import / init event, and every event
+    whose value differs starts from a process that holds exactly the replayed history
+    (a differing value seen later in a batch is re-run alone to attribute it)."""
     take_trace()
     replay_here(history)
     take_trace()
     s = abstract_state(fine)
     out = {}
-    for name in events:
-        def step(name=name):
-            v = run_event(name)
-            s2 = abstract_state(fine)
-            tr = take_trace()
-            same = (name in canon_vals and v == canon_vals[name])
-            return [True if same else _short(v, 600), s2, tr]
-        out[name] = fork_call(step, timeout=60)
+
+    def one(name):
+        v = run_event(name)
+        s2 = abstract_state(fine)
+        tr = take_trace()
+        same = (name in canon_vals and v == canon_vals[name])
+        return [name, True if same else _short(v, 600), s2, tr]
+
+    def run_from(i):
+        recs = []
+        while i < len(events):
+            name = events[i]
+            ok = event_kind(name) in BATCHABLE
+            if recs and not ok:
+                break
+            rec = one(name)
+            recs.append(rec)
+            i += 1
+            if not (batch and ok and rec[1] is True and rec[2] == s and not rec[3]):
+                break
+        return recs
+
+    i = 0
+    while i < len(events):
+        status, recs = fork_call(lambda i=i: run_from(i), timeout=120)
+        if status != 'ok' or not recs:
+            out[events[i]] = [status if status != 'ok' else 'err', recs]
+            i += 1
+            continue
+        for j, rec in enumerate(recs):
+            name = rec[0]
+            prefix = [r[0] for r in recs[:j]]
+            if rec[1] is not True and prefix:
+                # differing value after pure events in the same grandchild: attribute it
+                st2, alone = fork_call(lambda name=name: one(name), timeout=60)
+                if st2 == 'ok' and alone[1] is not True:
+                    rec, prefix = alone, []
+            out[name] = ['ok', rec[1:] + [prefix]]
+        i += len(recs)
     res = {'state': s, 'out': out}
     if want_digest:
         def dig():
@@ -718,7 +759,9 @@ class Walk(object):
     (level, lexicographic order of the event index sequence)."""
 
     def __init__(self, events, canon_vals, canon_digest, fine=False, cap=5000, nproc=10, chunk=64,
-                 log=None):
+                 log=None, batch=True):
+        self.batch = batch
+        self.forks = 0
         self.events = list(events)
         self.index = {e: i for i, e in enumerate(self.events)}
         self.canon_vals = canon_vals
@@ -757,7 +800,7 @@ class Walk(object):
                     evs = self.events[c:c + self.chunk]
                     want_digest = (c == 0)
                     tasks.append(((s, c), (lambda h=h, evs=evs, wd=want_digest, s=s: expand_here(
-                        h, evs, self.canon_vals, self.canon_digest, self.fine, wd, s))))
+                        h, evs, self.canon_vals, self.canon_digest, self.fine, wd, self.batch))))
             results = {}
             pool.run_all(tasks, lambda tag, res: results.__setitem__(tag, res))
             new = []
@@ -784,12 +827,14 @@ class Walk(object):
                         if estatus != 'ok':
                             self.errors.append('event %s after %r: %s %s' % (name, h, estatus, str(ep)[-400:]))
                             continue
-                        same, s2, tr = ep
+                        same, s2, tr, prefix = ep
                         self.transitions += 1
+                        if not prefix:
+                            self.forks += 1
                         k = event_kind(name)
                         self.kinds[k] = self.kinds.get(k, 0) + 1
                         if same is not True:
-                            self.event_violations.append((h, name, same))
+                            self.event_violations.append((h + prefix, name, same))
                         for g, how in fired_groups(tr).items():
                             if not group_pending(s, g):
                                 continue            # guard returned, or an explicit re-load
